@@ -227,6 +227,8 @@ def infer(*args, **kwargs):
             "class_def", kwargs.get("function_def", kwargs.get("call_or_name"))
         )
     )
+    if isinstance(node, dict):
+        return "json_schema"  # E.g., contents of a JSON-schema file, from `gen --parse infer`
     is_supported_ast_node: bool = isinstance(
         node, (Module, Assign, AnnAssign, Call, ClassDef, FunctionDef)
     )
